@@ -9,7 +9,7 @@ T = {"C03": "o3_1_strokes_{-,|,+} (3 queries over 4^8 neighbourhoods)",
      "C09": "o9_5_run_cell_* (21 run characters)",
      "C12": "o12_2_contained_* (one query per table character, 120), o12_3_circle_catalogue (entry index and placement symbolic)",
      "C13": "o13_1_extent_radius (1), o13_2a_offset_placement_free_* (22), o13_2_cells_near_circle_* (22)",
-     "C14": "o14_1_arrow_* (31), o14_2_corner_*_join/_bulge (24), o14_2_corner_closes_* (8), o14_3_bullet_* (12)"}
+     "C14": "o14_1_arrow_* (31), o14_2_corner_*_join/_bulge (24), o14_2_corner_closes_* (8), o14_2_rounded_* (4), o14_3_bullet_* (12)"}
 props = sorted(set(p for h in hs for p in h.props) | set(T))
 print("| property | quick tier (per change, <= 900 s) | additionally in the thorough tier | engine T queries (both tiers) |")
 print("|---|---|---|---|")
